@@ -61,21 +61,23 @@ type runner struct {
 	dump  Dumper
 	rng   *rand.Rand
 
-	mu         sync.Mutex
-	evs        []Event
-	err        error
-	stopping   bool
-	stopCh     chan struct{}
-	wake       chan struct{}
-	evCh       chan struct{}
-	parked     int
-	gates      []*gate
-	leaseOwner map[string]string
-	injected   bool
-	targets    map[string]*target // by name
-	byURL      map[string]*target
-	requeue    map[string]int
-	orderPos   int
+	mu          sync.Mutex
+	evs         []Event
+	err         error
+	stopping    bool
+	stopCh      chan struct{}
+	wake        chan struct{}
+	evCh        chan struct{}
+	parked      int
+	gates       []*gate
+	leaseOwner  map[string]string
+	injected    bool
+	overrun     bool
+	maxDelivers int
+	targets     map[string]*target // by name
+	byURL       map[string]*target
+	requeue     map[string]int
+	orderPos    int
 
 	nLeases, nDelivers, nBatchCalls, nBatchMulti, maxGated int
 
@@ -263,6 +265,15 @@ func (s stubDeliverer) Deliver(ctx context.Context, dl dispatcher.Delivery) disp
 	g := &gate{id: dl.ID, tg: r.targetName(dl.URL), ch: make(chan dispatcher.Result, 1)}
 	if e := r.rows()[dl.ID]; e != nil {
 		g.lease, g.att = e.LeaseID, e.Attempt
+	}
+	if (r.spec.HTTP || !r.spec.Gated) && r.nDelivers >= r.maxDelivers {
+		// a free-running behaviour that sends far more often than any bound allows (e.g. a success that is
+		// nacked and re-sent for ever): stop feeding it, let the harness end the behaviour as aborted
+		r.overrun = true
+		r.gates = append(r.gates, g)
+		r.notify()
+		r.mu.Unlock()
+		return <-g.ch
 	}
 	if r.spec.HTTP {
 		r.mu.Unlock()
@@ -479,6 +490,19 @@ func Execute(spec *Run, scratch string, seq int) ([]Event, Summary, error) {
 	}
 	r.mu.Unlock()
 
+	maxMax := 1
+	for _, t := range r.targets {
+		if t.cfg.Retry.Max > maxMax {
+			maxMax = t.cfg.Retry.Max
+		}
+	}
+	nrq := 0
+	for _, n := range spec.Requeue {
+		nrq += n
+	}
+	r.mu.Lock()
+	r.maxDelivers = 2*(len(spec.Msgs)*(maxMax+2)+nrq) + 20
+	r.mu.Unlock()
 	pd := &dispatcher.PushDispatcher{
 		Store:     store,
 		Deliverer: stubDeliverer{r},
@@ -509,6 +533,11 @@ loop:
 		r.mu.Lock()
 		if r.err != nil {
 			runErr = r.err
+			r.mu.Unlock()
+			break
+		}
+		if r.overrun {
+			aborted = true
 			r.mu.Unlock()
 			break
 		}
